@@ -14,6 +14,8 @@
   arguments assign or delete.
 -/
 import VrlProofs.Lemmas.Pure
+import VrlProofs.Lemmas.PureRet
+import VrlModel.C34
 
 namespace C34
 open Lang
@@ -172,5 +174,49 @@ theorem delete_failing_statement (e : Expr) (es : Exprs) (s : St) (hp : pureE e 
 /-- non-vacuity: `[x, 1 + 2]` is in the fragment; `{ "a": (.x = 1) }` is not. -/
 example : pureE (.arr (.cons (.var "x") (.cons (.op .add (.lit (.int 1)) (.lit (.int 2))) .nil))) = true := by decide
 example : pureE (.obj (.cons [97] (.asg (.external false [.field [120]]) (.lit (.int 1))) .nil)) = false := by decide
+
+/-! ### the Spec predicate of the oracle (`VrlModel/C34.lean`) holds of the model for the proved fragment -/
+
+def obsOfRun (r : RunOutcome × St) : Obs :=
+  ⟨(match r.1 with | .ok _ => true | _ => false), r.2.event, r.2.metadata⟩
+
+theorem removable_refl (b : Bool) (o : Obs) : removable b o o = true := by
+  unfold removable; cases o.ok <;> simp
+
+/-- deleting a discarded effect-free statement that succeeds: the two runs satisfy the Spec with
+    `mayFail = false`, whatever state (event, metadata, variables, faults) it is reached in. -/
+theorem head_removable (e : Expr) (es : Exprs) (s : St) (v : Value) (hp : pureE e = true)
+    (hne : es ≠ .nil) (hok : (eval e (s.tick 0 false []).2).1 = .ok v) :
+    removable false (obsOfRun (run (.cons e es) s)) (obsOfRun (run es s)) = true := by
+  have h := delete_statement e es (s.tick 0 false []).2 v hp hne hok
+  have : run (.cons e es) s = run es s := by
+    unfold run
+    simp only [h]
+  rw [this]
+  exact removable_refl _ _
+
+/-- … and for one that may fail the Spec holds with `mayFail = true`: a successful original run is
+    reproduced (a pure statement never `return`s, `pure_no_ret`, so a successful original run is a
+    run in which the statement succeeded). -/
+theorem head_removable_mayfail (e : Expr) (es : Exprs) (s : St) (hp : pureE e = true) (hne : es ≠ .nil) :
+    removable true (obsOfRun (run (.cons e es) s)) (obsOfRun (run es s)) = true := by
+  by_cases hok : ∃ v, (eval e (s.tick 0 false []).2).1 = .ok v
+  · obtain ⟨v, hv⟩ := hok
+    have h := delete_statement e es (s.tick 0 false []).2 v hp hne hv
+    have : run (.cons e es) s = run es s := by
+      unfold run
+      simp only [h]
+    rw [this]
+    exact removable_refl _ _
+  · have hf : ∀ v, (eval e (s.tick 0 false []).2).1 ≠ .ok v := fun v hv => hok ⟨v, hv⟩
+    have h := delete_failing_statement e es (s.tick 0 false []).2 hp hne hf
+    have hnr := pure_no_ret e hp (s.tick 0 false []).2
+    unfold removable obsOfRun run
+    simp only [h]
+    cases hr : (s.tick 0 false []).1 <;> simp
+    cases hq : (eval e (s.tick 0 false []).2).1 with
+    | ok v => exact absurd hq (hf v)
+    | ret v => exact absurd hq (hnr v)
+    | _ => simp
 
 end C34
